@@ -119,4 +119,104 @@ def connect (t : Target) (a : AlpnKind) (dh ah : List Hook) : Outcome :=
 /-- Something left the dialer (the acceptor saw an `Incoming`). -/
 def Outcome.handshakeStarted (o : Outcome) : Prop := o.ares ≠ .none
 
+/-! ### Connect variants
+
+Every way the public API produces a `Connection` goes through ONE function,
+`conn_from_noq_conn` (authenticate, register, run `hooks.after_handshake`, close on reject):
+
+```
+dialer   Endpoint::connect                = connect_with_opts(..).await?.await
+         Connecting: Future::poll         → conn_from_noq_conn
+         Connecting::into_0rtt            → Err(self)  (no session ticket: the same Connecting back)
+                                          → Ok(OutgoingZeroRttConnection); its
+                                            handshake_completed() → conn_from_noq_conn, then
+                                            ZeroRttStatus::{Accepted, Rejected}(conn)
+acceptor Accepting: Future::poll          → conn_from_noq_conn
+         Incoming: IntoFuture             → conn_from_noq_conn
+         Accepting::into_0rtt             → IncomingZeroRttConnection; its
+                                            handshake_completed() → conn_from_noq_conn
+```
+so the hook outcome of a dial does not depend on the variant (`connectV .. .base = connect ..`).
+What DOES depend on it is application data: an `OutgoingZeroRttConnection` /
+`IncomingZeroRttConnection` is a usable connection handle (`open_bi`, `accept_bi`, …) BEFORE
+`handshake_completed()` is awaited, i.e. before any after-handshake hook of that side has been
+invoked — and the hooks of a side run only if/when its application awaits
+`handshake_completed()`.  `before_connect` hooks and the two preconditions still come first
+(`connect_with_opts` must succeed to have a `Connecting` at all).
+-/
+
+inductive DVariant where
+  /-- `Endpoint::connect` -/
+  | connect
+  /-- `connect_with_opts` then awaiting the `Connecting` -/
+  | opts
+  /-- `into_0rtt` without a usable session ticket: hands the `Connecting` back -/
+  | zNoTicket
+  /-- `into_0rtt` with a ticket, the acceptor accepts the early data -/
+  | zAccepted
+  /-- `into_0rtt` with a ticket the acceptor can no longer use: 1-RTT fallback -/
+  | zRejected
+deriving DecidableEq, Repr
+
+inductive AVariant where
+  /-- `incoming.accept()?.await` -/
+  | accepting
+  /-- `incoming.await` -/
+  | incoming
+  /-- `Accepting::into_0rtt`, the application reads before `handshake_completed()` -/
+  | zeroRtt
+deriving DecidableEq, Repr
+
+inductive ZStatus where
+  | notAttempted
+  /-- `into_0rtt` returned `Err(connecting)` -/
+  | handedBack
+  | accepted
+  | rejected
+  /-- attempted, but `handshake_completed()` failed (the dialer's hook rejected): never learned -/
+  | unknown
+deriving DecidableEq, Repr
+
+inductive Early where
+  | none
+  /-- the acceptor's application read 0-RTT stream data BEFORE its after-handshake hooks were invoked -/
+  | pre
+  /-- race with the dialer's close -/
+  | unspecified
+deriving DecidableEq, Repr
+
+def DVariant.attempts0rtt : DVariant → Bool
+  | .zAccepted | .zRejected => true
+  | _ => false
+
+structure VOutcome where
+  base : Outcome
+  z : ZStatus
+  /-- the dialer's application could (and in the run does) write stream data before any of its
+  after-handshake hooks was invoked -/
+  dEarlyWrite : Bool
+  aEarly : Early
+deriving DecidableEq, Repr
+
+/-- `connect_with_opts` returned a `Connecting` (hooks, self check, empty-name check passed). -/
+def gotConnecting (t : Target) (a : AlpnKind) (dh : List Hook) : Bool :=
+  (runBefore 0 dh).2 && decide (t = .peer) && decide (a ≠ .empty)
+
+def connectV (dv : DVariant) (av : AVariant) (t : Target) (a : AlpnKind) (dh ah : List Hook) : VOutcome :=
+  let gc := gotConnecting t a dh
+  let dAccepts := decide ((runAfter 0 dh).2 = none)
+  { base := connect t a dh ah
+    z := if !gc then .notAttempted else
+      match dv with
+      | .connect => .notAttempted
+      | .opts => .notAttempted
+      | .zNoTicket => .handedBack
+      | .zAccepted => if dAccepts && decide (a = .ok) then .accepted else .unknown
+      | .zRejected => if dAccepts && decide (a = .ok) then .rejected else .unknown
+    dEarlyWrite := gc && dv.attempts0rtt
+    aEarly :=
+      if gc && decide (dv = .zAccepted) && decide (av = .zeroRtt) && decide (a = .ok) then
+        (if dAccepts then .pre else .unspecified)
+      else .none }
+
 end IrohModel.C42
